@@ -43,6 +43,14 @@ CHECKS = {
          "Forward vs reference, Reverse/Forward round trips, series vs exact vs exact=true delegation, central meridian, gamma/k vs the analytic derivative, parities, longitude wrap, poles, far side, extendp, UTM singletons; tolerance = 2 x (documented 5 nm / 8 nm + computed truncation tail of the 6th-order series).",
          "Known finding C06-exact-reverse-large-f (TransverseMercatorExact::Reverse for f > 0.05) is excluded for Reverse relations only. Where the 6th-order series has diverged (tail >= 1 m) nothing but no-crash is asserted.",
          "DESIGN.md section 3/C06"),
+ "C17": ("rapidcheck (incl. model-based brute force)", "property-based testing: projections against the geodesic-ODE reference (position, arrival azimuth, Jacobi fields m12/M12); intersections validated by following both lines with the ODE, minimality against the lattice of conjugate intersections, structural checks of Next/Segment/All; nearest-neighbour search against a brute-force scan incl. Save/Load round trips",
+         "AzimuthalEquidistant, Gnomonic and CassiniSoldner are tied to their defining geodesic constructions by an independent integrator; Intersect results must be genuine intersections with the documented indicators; NearestNeighbor must reproduce the multiset of the k smallest distances of a linear scan for four metrics with many ties.",
+         "Intersect minimality is not decided by a brute-force scan of all intersections (cost) but against the lattice of the other intersections of two nearly-closed geodesics, with a margin for the ellipsoidal deformation; tangential intersections are only checked for validity.",
+         "DESIGN.md section 3/C17"),
+ "C10": ("rapidcheck + libFuzzer", "property-based testing with a grammar generator of valid DMS strings that computes the expected value while generating, a three-valued reference acceptor for mutated strings, round trips through every formatter/parser pair (DMS, Utility, GeoCoords), tools run in-process on generated line sequences; coverage-guided fuzzing of DMS::Decode, GeoCoords, Utility and the GeoConvert/GeodSolve/RhumbSolve line loops with semantic oracles inside the targets",
+         "Decode(Encode(v)) within half a unit of the last digit, normal form of Encode output, all documented input forms (98 grammar production classes) with their meaning, rejection of malformed strings with untouched outputs, GeoCoords representations re-read to the same position/zone, tools: one output line per input line, ERROR marking and exit status.",
+         "The reference acceptor marks forms the header leaves unspecified as UNSPEC (not judged). Fuzz campaigns are approximately reproducible; artifacts are the reproducible unit.",
+         "DESIGN.md section 3/C10"),
  "C01": ("rapidcheck", "property-based testing against an independent long-double geodesic-ODE reference; differential across 8 solver/line configurations; metamorphic reversal",
          "Generated-input exploration: every generated direct problem is compared with a reference that integrates the geodesic equation itself (no series, no auxiliary sphere), to 2x the documented accuracy for the flattening. Exploration is the right level: the property quantifies over a continuum of inputs and an executable oracle exists.",
          "Trusts: the reference ODE integrator (self-checked per case by step halving, constraint projection), x87 long double, the tolerance formulas of DESIGN section 2 (2x documented accuracy, scaled by length in quarter circuits). Errors below the documented accuracy are not violations.",
